@@ -14,7 +14,7 @@ use pvcore::refcodec::*;
 
 pub fn check(tier: Tier) -> Check {
     let parts = vec![
-        Part::new("C03/short", json!({"max_len": tier.pick(14, 21)}), 0, tier.pick(50, 900)),
+        Part::new("C03/short", json!({"max_len": tier.pick(14, 19)}), 0, tier.pick(50, 900)),
         Part::new("C03/long", json!({"big": tier == Tier::Thorough, "narrow": tier == Tier::Quick}), 0, tier.pick(50, 900)),
     ];
     Check {
